@@ -1314,3 +1314,57 @@ Proof.
 Qed.
 
 End Clean.
+
+(* ------------------------------------------------------------------ *)
+(* Last-Translator: invalid / boilerplate (with the POT exemption) *)
+
+Section TranslatorRules.
+Variable O : oracles.
+Variable known dedicated nb ob : list str.
+Variable inp : hinput.
+Variable ds : list diag.
+Hypothesis Hok : hdr_check O known dedicated nb ob inp = Ok ds.
+Let md := metadata_of (h_entries inp).
+Let t := h_template inp.
+
+Lemma translator_piece : forall d, cls d = 4%nat ->
+  (forall f, d <> DDuplicateDedicated f) -> (forall f, d <> DNoField f) ->
+  (forall a, d <> DInvalidTeam a) -> (forall a, d <> DBoilerplateTeam a) -> (forall a b, d <> DTeamEqualsTranslator a b) ->
+  (In d ds <-> exists v, In v (values (field_name FTranslator) md) /\ In d (tr_pure O nb ob t v)).
+Proof.
+  intros d Hc H1 H2 H3 H4 H5. rewrite (hdr_check_in _ _ _ _ _ _ _ _ Hok). rewrite Hc.
+  rewrite (translator_result O nb ob inp). fold md t. split.
+  - intros (td & E & H). injection E as <-.
+    apply in_app_or in H. destruct H as [H|H]; [exfalso; in_cases; subst; first [eapply H1; reflexivity | eapply H2; reflexivity]|].
+    apply in_app_or in H. destruct H as [H|H].
+    + apply in_flat_map in H. destruct H as (v & Hv & H). exists v. split; [|exact H].
+      apply (proj1 (In_dedup _ _)) in Hv. rewrite <- values_of_spec. exact Hv.
+    + exfalso. apply in_app_or in H. destruct H as [H|H]; [in_cases; subst; first [eapply H1; reflexivity | eapply H2; reflexivity]|].
+      unfold team_pure in H. in_cases; subst; first [eapply H3; reflexivity | eapply H4; reflexivity | eapply H5; reflexivity].
+  - intros (v & Hv & H). eexists. split; [reflexivity|]. apply in_or_app. right. apply in_or_app. left.
+    apply in_flat_map. exists v. split; [apply In_dedup; rewrite values_of_spec; exact Hv | exact H].
+Qed.
+
+Lemma invalid_translator_iff : forall v,
+  In (DInvalidTranslator v) ds <->
+  In v (values (field_name FTranslator) md) /\ bad_address (o_lower O) nb ob (o_parseaddr O v).
+Proof.
+  intro v. rewrite translator_piece by (try reflexivity; intros; discriminate). split.
+  - intros (v' & Hv' & H). unfold tr_pure in H. pose proof (verdict_invalid_iff O nb ob (o_parseaddr O v')) as HV.
+    destruct (addr_verdict O nb ob is_boiler1 (o_parseaddr O v')); in_cases; try discriminate; injection H as ->; (split; [exact Hv' | apply HV; exact I]).
+  - intros [Hv Hb]. exists v. split; [exact Hv|]. unfold tr_pure. apply (verdict_invalid_iff O nb ob) in Hb.
+    destruct (addr_verdict O nb ob is_boiler1 (o_parseaddr O v)); try destruct Hb; left; reflexivity.
+Qed.
+
+(* POT exemption *)
+Lemma boilerplate_translator_iff : forall v,
+  In (DBoilerplateTranslator v) ds <->
+  In v (values (field_name FTranslator) md) /\ t = false /\ addr_verdict O nb ob is_boiler1 (o_parseaddr O v) = VBoilerplate.
+Proof.
+  intro v. rewrite translator_piece by (try reflexivity; intros; discriminate). split.
+  - intros (v' & Hv' & H). unfold tr_pure in H.
+    destruct (addr_verdict O nb ob is_boiler1 (o_parseaddr O v')) eqn:E; in_cases; try discriminate. injection H as ->. auto.
+  - intros (Hv & Ht & E). exists v. split; [exact Hv|]. unfold tr_pure. rewrite E, Ht. left. reflexivity.
+Qed.
+
+End TranslatorRules.
